@@ -26,6 +26,13 @@ func corpus() [][]string {
 		// typed store: iteration stops at the first decode error
 		{"ts set 1 10 -", "ts set 2 20 -", "ts set 258 30 -", "ts rawset 0001ff aa", "ts iter - fwd 0 -", "ts iter - bwd 0 -", "ts iter 00 fwd 0 -",
 			"ts iter 0001 fwd 0 -", "ts iter 01 fwd 0 -", "ts iter - fwd 2 -", "ts rawset 0002 aabb", "ts iter - fwd 0 -", "ts get 2 -", "ts has 2 -"},
+		// allocation-free codecs: the store must keep its own copy of what it was handed
+		{"ts codec scratch", "ts set 1 10 -", "ts set 2 20 -", "ts get 1 -", "ts iter - fwd 0 -", "ts set 3 30 kv1", "ts get 1 -", "ts get 2 -"},
+		{"tv codec scratch", "tv init none", "tv set 2 -", "tv set 700 kv1", "tv get -", "tv reopen", "tv get -", "tv compute add 1 -", "tv compute add 1 kv2", "tv reopen", "tv get -"},
+		{"tp codec scratch", "tp init none", "tp set new 5 -", "tp set new 700 kv1", "tp reopen", "tp get -"},
+		// key iteration, prefix deletion, clear
+		{"ts set 1 10 -", "ts set 2 20 -", "ts set 258 30 -", "ts rawset 0001ff aa", "ts iterk - fwd 0 -", "ts iterk - bwd 0 -", "ts iterk 00 fwd 2 -",
+			"ts iterk - fwd 0 dec@1", "ts iterk - fwd 0 kv@2", "ts delp 00 kv1", "ts delp 0001 -", "ts iterk - fwd 0 -", "ts clear kv1", "ts clear -", "ts iter - fwd 0 -"},
 		{"ts set 65535 1 -", "ts set 1 18446744073709551615 -", "ts get 65535 -", "ts has 65535 -", "ts del 65535 -", "ts get 1 -", "ts del 1 -"},
 	}
 }
@@ -90,6 +97,16 @@ func exhaustiveTS() [][]string {
 				out = append(out, c)
 			}
 		}
+		for _, op := range []string{"delp -", "delp 00", "delp 0001", "delp 01", "clear"} {
+			for _, ft := range []string{"-", "kv1"} {
+				for _, flavour := range []string{"alloc", "scratch"} {
+					c := []string{"ts codec " + flavour}
+					c = append(c, st...)
+					c = append(c, "ts "+op+" "+ft, "ts iter - fwd 0 -", "ts iterk - bwd 0 -")
+					out = append(out, c)
+				}
+			}
+		}
 		for _, dir := range []string{"fwd", "bwd"} {
 			for stop := 0; stop <= 3; stop++ {
 				var fts []string
@@ -106,6 +123,9 @@ func exhaustiveTS() [][]string {
 						c := append([]string(nil), st...)
 						c = append(c, fmt.Sprintf("ts iter %s %s %d %s", pfx, dir, stop, ft))
 						out = append(out, c)
+						ck := append([]string(nil), st...)
+						ck = append(ck, fmt.Sprintf("ts iterk %s %s %d %s", pfx, dir, stop, ft))
+						out = append(out, ck)
 					}
 				}
 			}
@@ -149,6 +169,9 @@ func genTV(rng *hx.Rng) []string {
 		init = "ffffffffffffffff"
 	}
 	ops := []string{"tv init " + init}
+	if rng.Bool() {
+		ops = append([]string{"tv codec scratch"}, ops...)
+	}
 	n := rng.Range(6, 22)
 	for i := 0; i < n; i++ {
 		ft := genTVFaults(rng)
@@ -197,9 +220,19 @@ func genTS(rng *hx.Rng) []string {
 	rawKeys := []string{"01", "0001ff", "0002", "ffff", "0100", "-"}
 	rawVals := []string{"aa", "0000000000000003", "ffffffffffffffff", "-"}
 	var ops []string
+	if rng.Bool() {
+		ops = append(ops, "ts codec scratch")
+	}
 	n := rng.Range(8, 24)
 	for i := 0; i < n; i++ {
-		switch x := rng.Intn(100); {
+		switch x := rng.Intn(110); {
+		case x >= 107:
+			ops = append(ops, "ts clear "+hx.Pick(rng, []string{"-", "-", "kv1"}))
+		case x >= 104:
+			ops = append(ops, fmt.Sprintf("ts delp %s %s", hx.Pick(rng, []string{"00", "01", "0001", "02", "-"}), hx.Pick(rng, []string{"-", "-", "kv1"})))
+		case x >= 100:
+			ops = append(ops, fmt.Sprintf("ts iterk %s %s %d %s", hx.Pick(rng, []string{"-", "-", "00", "01", "0001", "02"}),
+				hx.Pick(rng, []string{"fwd", "bwd"}), rng.Intn(5), genTSFaults(rng, true)))
 		case x < 30:
 			ops = append(ops, fmt.Sprintf("ts set %s %s %s", hx.Pick(rng, keys), hx.Pick(rng, vals), genTSFaults(rng, false)))
 		case x < 42:
